@@ -309,6 +309,16 @@ public class BigZ {
         for (int i = 0; i < s.length(); i++) { char c = s.charAt(i); sb.append(c >= 'A' && c <= 'Z' ? (char) (c + 32) : c); }
         return new StringValue(sb.toString());
     }
+    public static Value StrFind(Value sv, Value cv) {
+        String s = ((StringValue) sv).val.toString(), c = ((StringValue) cv).val.toString();
+        return IntValue.gen(c.length() == 1 ? s.indexOf(c.charAt(0)) + 1 : 0);
+    }
+    public static Value StrLead(Value sv, Value cv) {
+        String s = ((StringValue) sv).val.toString(), c = ((StringValue) cv).val.toString(); int k = 0;
+        if (c.length() != 1) return IntValue.gen(0);
+        while (k < s.length() && s.charAt(k) == c.charAt(0)) k++;
+        return IntValue.gen(k);
+    }
     /* middle product MP(a, m, b, n) of w-bit limb vectors */
     public static Value ZMulMid(Value av, Value mv, Value bv, Value nv, Value wv) {
         BigInteger a = Z(av), b = Z(bv); int m = I(mv), n = I(nv), w = I(wv);
